@@ -124,6 +124,14 @@ def others_unchanged(old, st, blk, skip=()):
     return forall([o], z3.Implies(cond, hn.parent(o) == ho.parent(o)))
 
 
+def parent_cls(owner_cls, attr):
+    """`parent` is polymorphic: a Block for an Operation, a Region for a Block, an Operation for a Region (typing it lets the engine check on the
+    live class that `if x.parent:` is `x.parent is not None`, i.e. that the class defines neither __bool__ nor __len__)."""
+    if attr == "parent":
+        return {"Operation": "Block", "Block": "Region", "Region": "Operation"}.get(owner_cls)
+    return None
+
+
 class IsAncestor(Spec):
     """_IRNode.is_ancestor as seen by callers: pure, no effects, never raises (assumed contract, its loop
     walks parent links; termination needs the tree to be acyclic, which is what it protects)."""
@@ -146,6 +154,7 @@ OP_INLINES = {
 
 
 class OpListSpec(Spec):
+    globals = {"__field_cls__": parent_cls}
     prop, file = PROP, CORE
     inline = OP_INLINES
     calls = {"operation.is_ancestor": IS_ANCESTOR}
@@ -338,7 +347,7 @@ class BlockListSpec(Spec):
                 return False
             return None
 
-        return {"__isinstance__": isinst}
+        return {"__isinstance__": isinst, "__field_cls__": parent_cls}
 
     def setup(self, st, inst):
         st.ghost["pos_block"] = POSB
